@@ -52,7 +52,7 @@ def strat_deriv(stratum, tier):
                 D=st.just(D),
                 N=st.just(N),
                 C=st.just(C),
-                L=gens.st_L(),
+                L=gens.st_L(extreme=True),
                 order=st.integers(1, 6),
                 state=gens.st_trig(C, D, kmax, 1, 5),
             )
@@ -106,7 +106,7 @@ def strat_ops(stratum, tier):
         dict(
             D=st.just(D),
             N=st.just(N),
-            L=gens.st_L(),
+            L=gens.st_L(extreme=True),
             lap_order=st.sampled_from([2, 4, 6, 8]),
             grad_order=st.sampled_from([1, 3, 5]),
             velocity=st.lists(gens.coef(-2, 2), min_size=D, max_size=D),
@@ -173,7 +173,7 @@ def strat_poisson(stratum, tier):
                 D=st.just(D),
                 N=st.just(N),
                 C=st.just(C),
-                L=gens.st_L(),
+                L=gens.st_L(extreme=True),
                 order=st.sampled_from([2, 4]),
                 state=gens.st_trig(C, D, kmax, 1, 5),
                 mean=gens.coef(-2, 2),
